@@ -11,7 +11,7 @@
 import json, os, re
 import vlib
 
-CODERS = ["rans", "adaptive", "direct", "folded", "symbol"]
+CODERS = ["rans", "adaptive", "direct", "folded", "symbol", "sweep_direct", "sweep_symbol", "sweep_buffer"]
 
 
 def _seq_trace(v, mod, f, nrec, verdict):
@@ -57,13 +57,18 @@ def check(v, tier, seed):
     for mode, n, f in (("buffer", nbuf, fbuf),):
         rc, out = vlib.run("%s %s %d %d > %s" % (exe, mode, seed, n, f), timeout=900)
         if rc != 0:
-            raise vlib.Infra("drv_c17 %s rc=%d %s" % (mode, rc, out[-400:]))
+            # the driver only makes valid API calls here: a crash / abort is the library's
+            v.violation({"what": "crash or abort while round-tripping valid buffer operations (drv_c17 %s)" % mode, "rc": rc, "output": out[-1500:]},
+                        tags={"kind": "crash_valid_use"})
+            return v.finish("model_checking")
     cmds = ["%s varint %d %d" % (exe, seed, 20000 if quick else 400000),
             "%s coders %d %d" % (exe, seed, 1500 if quick else 20000),
             "%s rabs %d %d" % (exe, seed, 60 if quick else 1500)]
     rc, out = vlib.run("( %s ) > %s" % (" && ".join(cmds), fprim), timeout=1800)
     if rc != 0:
-        raise vlib.Infra("drv_c17 prims rc=%d %s" % (rc, out[-400:]))
+        v.violation({"what": "crash or abort while round-tripping valid primitive operations (drv_c17 varint/coders/rabs)", "rc": rc, "output": out[-1500:]},
+                    tags={"kind": "crash_valid_use"})
+        return v.finish("model_checking")
     # the same workload in the ASan+UBSan build (memory safety of the primitives on valid use)
     rc, out = vlib.run("( %s buffer %d %d && %s coders %d %d ) > /dev/null" % (exe_asan, seed, nbuf // 4, exe_asan, seed, 300), timeout=1800,
                        env=vlib.SAN_ENV)
@@ -77,6 +82,10 @@ def check(v, tier, seed):
         if "ReserveShadowMemoryRange" in out or "failed to allocate" in out and "AddressSanitizer failed" in out:
             raise vlib.Infra("ASan could not start: " + out[-300:])
         line = [l for l in out.splitlines() if l.startswith('{"e":"PastEnd"')]
+        if c.startswith("sweep_") and rc == 0 and line:
+            for l in line:
+                past.append(json.loads(l))
+            continue
         if rc != 0 or not line:
             site = re.search(r"#\d+ .* in (draco::\S+)", out)
             v.violation({"what": "reading past the written data touches memory outside the buffer (sanitizer report)", "coder": c,
